@@ -138,6 +138,12 @@ pub fn observe_light<B: BitReaders>(rep: &mut Rep, b: &B, m: &[bool], rng: &mut 
 
 /// full observation of every reader
 pub fn observe_full<B: BitReaders>(rep: &mut Rep, b: &B, m: &[bool], rng: &mut Rng, unchecked: bool, budget: usize) {
+    observe_full_opt(rep, b, m, rng, unchecked, budget, true)
+}
+
+/// `check_values_at_end = false`: reads of a range that ends at the last bit are only required not to
+/// panic (used by C04, whose subject is totality; the values are C08's subject)
+pub fn observe_full_opt<B: BitReaders>(rep: &mut Rep, b: &B, m: &[bool], rng: &mut Rng, unchecked: bool, budget: usize, check_values_at_end: bool) {
     let n = m.len();
     observe_light(rep, b, m, rng);
     if n >= 2 {
@@ -181,7 +187,12 @@ pub fn observe_full<B: BitReaders>(rep: &mut Rep, b: &B, m: &[bool], rng: &mut R
         }
         for &st in &cand {
             let exp = if st.checked_add(len).map_or(false, |e| e <= n) { Some(model_bits(m, st, len)) } else { None };
-            let op = if st.checked_add(len) == Some(n) { B::OP_GET_BITS_END } else { "get_bits" };
+            let at_end = st.checked_add(len) == Some(n);
+            let op = if at_end { B::OP_GET_BITS_END } else { "get_bits" };
+            if at_end && !check_values_at_end {
+                chk!(rep, op, (B::NAME, st, len), Exp::AnyVal, b.r_get_bits(st, len));
+                continue;
+            }
             let got = chk!(rep, op, (B::NAME, st, len), Exp::Is(exp), b.r_get_bits(st, len));
             if let (true, Some(Some(v))) = (unchecked, got.as_val()) {
                 let v = *v;
@@ -221,6 +232,10 @@ pub fn observe_full<B: BitReaders>(rep: &mut Rep, b: &B, m: &[bool], rng: &mut R
     }
     ps.sort_unstable();
     ps.dedup();
+    if crate::tiny() {
+        // stray dbg! in *_with_pos: stderr writes are extremely slow under the interpreters
+        ps = vec![1, n / 2, n + 64];
+    }
     for &p in &ps {
         let eo: Vec<usize> = ones.iter().copied().filter(|&x| x >= p).collect();
         let ez: Vec<usize> = zeros.iter().copied().filter(|&x| x >= p).collect();
